@@ -2,6 +2,8 @@
 import contextvars
 import functools
 import inspect
+import sys
+import threading
 from typing import (
     Callable,
     Any,
@@ -647,9 +649,49 @@ def resolve_kwdefaults(sign: inspect.Signature) -> Dict[str, Any]:
 # contract checking is already in progress.
 #
 # The key refers to the id() of the function (preconditions and postconditions) or instance (invariants).
+#
+# The value is a pair (flow of control which created the set, set of the keys); see ``_get_in_progress``.
 _IN_PROGRESS = contextvars.ContextVar(
     "_IN_PROGRESS", default=None
-)  # type: contextvars.ContextVar[Optional[Set[int]]]
+)  # type: contextvars.ContextVar[Optional[Tuple[Tuple[int, int], Set[int]]]]
+
+
+def _get_in_progress() -> Set[int]:
+    """
+    Retrieve the set of keys for which contract checking is in progress in the current thread / asyncio task.
+
+    We need to create a new in-progress set if there is none as the ``ContextVar`` does not accept
+    a factory function for the default argument. If we didn't do this, and simply set an empty
+    set as the default, ``ContextVar`` would always point to the same set by copying the default
+    by reference.
+
+    For the same reason, the set must not be shared with the copies of the context: when a context is copied
+    (*e.g.*, on the creation of an asyncio task, by ``asyncio.to_thread`` or by ``contextvars.copy_context``)
+    after the set has been created, the copy refers to the very same set. The concurrent callers would then
+    see the marks of each other and skip the contract checks which they must perform. Therefore the set is tagged
+    with the flow of control (thread and asyncio task) which created it, and another flow which inherited it
+    through a copy of the context starts with a new, empty set of its own.
+    """
+    task_id = 0
+    asyncio_module = sys.modules.get("asyncio")
+    if asyncio_module is not None:
+        try:
+            task = asyncio_module.current_task()
+        except RuntimeError:
+            # No event loop is running in this thread.
+            task = None
+
+        if task is not None:
+            task_id = id(task)
+
+    flow = (threading.get_ident(), task_id)
+
+    holder = _IN_PROGRESS.get()
+    if holder is None or holder[0] != flow:
+        holder = (flow, set())
+        _IN_PROGRESS.set(holder)
+
+    return holder[1]
 
 
 def decorate_with_checker(func: CallableT) -> CallableT:
@@ -705,14 +747,7 @@ def decorate_with_checker(func: CallableT) -> CallableT:
             if kwargs_error:
                 raise kwargs_error
 
-            # We need to create a new in-progress set if it is None as the ``ContextVar`` does not accept
-            # a factory function for the default argument. If we didn't do this, and simply set an empty
-            # set as the default, ``ContextVar`` would always point to the same set by copying the default
-            # by reference.
-            in_progress = _IN_PROGRESS.get()
-            if in_progress is None:
-                in_progress = set()
-                _IN_PROGRESS.set(in_progress)
+            in_progress = _get_in_progress()
 
             # If the wrapper is already checking the contracts for the wrapped function, avoid a recursive loop
             # by skipping any subsequent contract checks for the same function.
@@ -788,14 +823,7 @@ def decorate_with_checker(func: CallableT) -> CallableT:
             if kwargs_error:
                 raise kwargs_error
 
-            # We need to create a new in-progress set if it is None as the ``ContextVar`` does not accept
-            # a factory function for the default argument. If we didn't do this, and simply set an empty
-            # set as the default, ``ContextVar`` would always point to the same set by copying the default
-            # by reference.
-            in_progress = _IN_PROGRESS.get()
-            if in_progress is None:
-                in_progress = set()
-                _IN_PROGRESS.set(in_progress)
+            in_progress = _get_in_progress()
 
             # If the wrapper is already checking the contracts for the wrapped function, avoid a recursive loop
             # by skipping any subsequent contract checks for the same function.
@@ -1030,14 +1058,7 @@ def _decorate_with_invariants(func: CallableT, is_init: bool) -> CallableT:
 
             # We need to disable the invariants check during the constructor.
 
-            # We need to create a new in-progress set if it is None as the ``ContextVar`` does not accept
-            # a factory function for the default argument. If we didn't do this, and simply set an empty
-            # set as the default, ``ContextVar`` would always point to the same set by copying the default
-            # by reference.
-            in_progress = _IN_PROGRESS.get()
-            if in_progress is None:
-                in_progress = set()
-                _IN_PROGRESS.set(in_progress)
+            in_progress = _get_in_progress()
 
             id_instance = id(instance)
             if id_instance in in_progress:
@@ -1094,14 +1115,7 @@ def _decorate_with_invariants(func: CallableT, is_init: bool) -> CallableT:
                     else instance.__class__.__invariants_on_call__
                 )
 
-                # We need to create a new in-progress set if it is None as the ``ContextVar`` does not accept
-                # a factory function for the default argument. If we didn't do this, and simply set an empty
-                # set as the default, ``ContextVar`` would always point to the same set by copying the default
-                # by reference.
-                in_progress = _IN_PROGRESS.get()
-                if in_progress is None:
-                    in_progress = set()
-                    _IN_PROGRESS.set(in_progress)
+                in_progress = _get_in_progress()
 
                 # The following dunder indicates whether another invariant is currently being checked. If so,
                 # we need to suspend any further invariant check to avoid endless recursion.
@@ -1151,14 +1165,7 @@ def _decorate_with_invariants(func: CallableT, is_init: bool) -> CallableT:
                 # The following dunder indicates whether another invariant is currently being checked. If so,
                 # we need to suspend any further invariant check to avoid endless recursion.
 
-                # We need to create a new in-progress set if it is None as the ``ContextVar`` does not accept
-                # a factory function for the default argument. If we didn't do this, and simply set an empty
-                # set as the default, ``ContextVar`` would always point to the same set by copying the default
-                # by reference.
-                in_progress = _IN_PROGRESS.get()
-                if in_progress is None:
-                    in_progress = set()
-                    _IN_PROGRESS.set(in_progress)
+                in_progress = _get_in_progress()
 
                 id_instance = id(instance)
                 if id_instance not in in_progress:
